@@ -32,6 +32,10 @@ REQUIRED_THEOREMS = [
     "source_corner_to_half_edge_eq_model", "source_half_edge_to_corner_eq_model", "source_vertex_to_corner_in_face_eq_model",
     "source_direct_face_eq_model", "source_direct_face_inds_eq_model", "source_opposite_face_eq_model", "source_opposite_face_inds_eq_model",
     "source_vertex_to_faces_eq_model", "source_direct_face_spec",
+    # round 6: walk loops of _sort_vertex_neighborhoods; search loops and cache reads
+    "source_sort_backward_walk_eq_model", "source_sort_forward_walk_eq_model", "source_sort_corner_rank_eq_model",
+    "source_in_face_index_eq_model", "source_common_edge_eq_model", "source_face_to_vertices_eq_model", "source_edge_to_vertices_eq_model",
+    "source_vertex_to_corners_reads_table", "source_vertex_to_vertices_reads_table",
 ]
 TRUSTED = [
     "Lean 4.33.0 kernel; axioms ⊆ {propext, Classical.choice, Quot.sound}",
@@ -837,7 +841,7 @@ def _smap():
     S, L, M = "mouette/mesh/datatypes/surface.py::", "mouette/mesh/datatypes/linear.py::", "mouette/mesh/mesh_data.py::"
     g = "modelled: guard structure translated (C01Guards), answer hand-modelled in Model/Surface.lean"
     m = {}
-    for f in CS.FUNCTIONS + CS.CC_FUNCTIONS:
+    for f in CS.FUNCTIONS + CS.CC_FUNCTIONS + CS.ACC2_FUNCTIONS:
         m[(S if f.startswith("SurfaceMesh") else L) + f] = "translated"
     m[S + "SurfaceMesh._Connectivity._compute_connectivity"] = ("translated: corner loop, half-edge loops, opposite pass (Generated/C01HE.lean, bridge "
                                                                 "source_half_edge_tables_eq_model); the base-class call (_adjV2V) and the final "
@@ -846,21 +850,28 @@ def _smap():
               "SurfaceMesh.is_vertex_on_border", "SurfaceMesh.interior_edges",
               "SurfaceMesh.boundary_edges", "SurfaceMesh.boundary_vertices", "SurfaceMesh.interior_vertices",
               "SurfaceMesh._Connectivity.__init__", "SurfaceMesh._Connectivity.clear", 
-              "SurfaceMesh._Connectivity._sort_vertex_neighborhoods", 
-              "SurfaceMesh._Connectivity.vertex_to_corners", 
+              
+              
               
               "SurfaceMesh._Connectivity.corner_to_face",
               
-              "SurfaceMesh._Connectivity.common_edge", "SurfaceMesh._Connectivity.face_to_vertices", "SurfaceMesh._Connectivity.in_face_index",
+              
               "SurfaceMesh._Connectivity.face_to_first_corner", "SurfaceMesh._Connectivity.face_to_corners", "SurfaceMesh._Connectivity.face_to_faces"]:
         m[S + f] = g
+    m[S + "SurfaceMesh._Connectivity._sort_vertex_neighborhoods"] = (
+        "modelled: the whole body is compiled on every run (Generated/C01Sort.lean, refused shapes break the obligation) and its two walk loops "
+        "are bridged to the model's walkBack / walkFwd, the rank lookup to keyOf (source_sort_*); the use of len(sort_index) as iteration count, "
+        "the two sorts and the per-vertex assembly are tied by the correspondence run only")
+    for f in ["SurfaceMesh._Connectivity.vertex_to_corners"]:
+        m[S + f] = "translated: the cache read (Generated/C01Acc.lean); what the table holds is _sort_vertex_neighborhoods' business"
+    m[L + "PolyLine._Connectivity.vertex_to_vertices"] = m[S + "SurfaceMesh._Connectivity.vertex_to_corners"]
     for f in ["SurfaceMesh.id_vertices", "SurfaceMesh.id_edges", "SurfaceMesh.id_faces", "SurfaceMesh.id_corners"]:
         m[S + f] = "modelled: range shortcut (List.range in the model)"
     m[S + "SurfaceMesh.__str__"] = "out-of-scope: printing"
     m[S + "SurfaceMesh.ith_vertex_of_face"] = "out-of-scope: plain indexing helper, not an adjacency answer of the statement"
     m[S + "SurfaceMesh.pt_of_face"] = "out-of-scope: coordinates (C07), not connectivity"
     for f in ["PolyLine._Connectivity.__init__", "PolyLine._Connectivity.clear", "PolyLine._Connectivity._compute_connectivity",
-              "PolyLine._Connectivity.vertex_to_vertices", "PolyLine._Connectivity.edge_to_vertices"]:
+              ]:
         m[L + f] = g
     for f in ["PolyLine.__init__", "PolyLine.__str__", "PolyLine.id_vertices", "PolyLine.id_edges"]:
         m[L + f] = "out-of-scope: the PolyLine mesh class itself (only its _Connectivity is the base class of the surface connectivity)"
